@@ -762,7 +762,8 @@ func (c *Ctx) Int2BV(a *Term) *Term {
 
 // AddFact attaches a side fact to t.
 func (t *Term) AddFact(f *Term) {
-	if f.IsTrue() {
+	if f.IsTrue() || t.open || f.open {
+		// facts about terms under a binder cannot be asserted at top level
 		return
 	}
 	for _, g := range t.Facts {
